@@ -31,7 +31,7 @@ def main():
     for label, patch, breaks, what in items:
         if only and only not in label:
             continue
-        if label in results and not redo:
+        if label in results and not redo and not ("--complete" in sys.argv and results[label].get("checks_run") != "all"):
             continue
         extra = (["--checks", ",".join(breaks), "--skip-tests"] if (targeted and breaks) else [])
         p = subprocess.run([os.path.join(VERIF, "bin", "mutest"), patch, "--label", label] + extra + ([] if first else ["--no-refresh"]), stdout=subprocess.PIPE, stderr=subprocess.STDOUT, text=True)
